@@ -42,7 +42,7 @@ PROPS = {
                 "lengths 1..70 of valid characters, IPv4/IPv6-looking names and seeded random strings; PUT /<name> through the "
                 "HTTP API on memory, bolt and multi-bucket fs (MemMapFs and real directory) for all strings up to length 4/3/3/2 "
                 "(quick) plus the special and random names and duplicates, with ListBuckets compared to the set of accepted names "
-                "every 500 requests. distinct_nontrivial = distinct accepted names (direct) + distinct (backend, name) created. The same corpus is sent (GET /<name>, and reads, sub-resources and uploads under invalid names) to servers with the auto-bucket option on memory, bolt and fs: a bucket comes to exist on first use exactly when its name is valid, and the bucket list is compared. A deleted bucket is addressed again (a multipart upload started before the delete is completed after it, an upload, a copy): it must not be listed again.",
+                "every 500 requests. distinct_nontrivial = distinct accepted names (direct) + distinct (backend, name) created. The same corpus is sent (GET /<name>, and reads, sub-resources and uploads under invalid names) to servers with the auto-bucket option on memory, bolt and fs: a bucket comes to exist on first use exactly when its name is valid, and the bucket list is compared. A deleted bucket is addressed again (a multipart upload started before the delete is completed after it, an upload, a copy): it must not be listed again. Names of several lines (aaa\\n, \\naaa, aaa\\nA_, aaa.\\nbbb ...) and other white space / control characters around and inside valid names.",
         "explanation": "Theorem: the modelled validator equals the documented rule on every byte string of any length (no bound); "
                        "create succeeds iff valid and absent, a refusal creates nothing. Tie: the real ValidateBucketName and the "
                        "real create-bucket handlers are run on the same names as the extracted validator/spec and compared "
@@ -57,7 +57,7 @@ PROPS = {
                 "get, head, delete, multi-delete, copy incl. self-copy and cross-bucket copy, head bucket) on the memory backend with and "
                 "without auto-bucket, each followed by a probe (list buckets, list objects, get every key); plus seeded random sequences "
                 "of 40 (quick) / 60 (thorough) operations over 2 buckets x 4 keys x 3 bodies on all six backend instances with and "
-                "without auto-bucket. distinct_nontrivial = distinct sequences executed. The two buckets are named bkt and bkt2 (one name begins with the other); on the fs backends keys below an object and keys that are directories of other keys are read, deleted and copied from (never written: NoSuchKey everywhere); every fourth memory history runs the backend with versioning support switched off. Every third random history ends with c02Nesting (outside the model): an upload below an existing object, or onto a name that holds other keys, may be refused or stored, but the object acknowledged first keeps reading as written. Metadata sets include headers sent with an empty value.",
+                "without auto-bucket. distinct_nontrivial = distinct sequences executed. The two buckets are named bkt and bkt2 (one name begins with the other); on the fs backends keys below an object and keys that are directories of other keys are read, deleted and copied from (never written: NoSuchKey everywhere); every fourth memory history runs the backend with versioning support switched off. Every third random history ends with c02Nesting (outside the model): an upload below an existing object, or onto a name that holds other keys, may be refused or stored, but the object acknowledged first keeps reading as written. Metadata sets include headers sent with an empty value. A third of the copies of the random histories (self-copies included) carry metadata of their own.",
         "explanation": "Theorems: the modelled handlers satisfy the S3 laws for every reachable state and every operation sequence "
                        "(read-your-writes, frame, idempotent delete, bucket lifecycle, copy). Tie: every response of every sequence "
                        "(status, S3 code, body, ETag, bucket list, key list) produced by the Go handlers built from /repo is compared "
@@ -93,7 +93,7 @@ PROPS = {
                 "'/'), seeded subsets of size 3..6 and five 'rich' sets (a-x a/x a.x, UTF-8, nested directories); for each set every "
                 "prefix over {a,b,/} of length <= 3 not starting with '/', delimiter absent and '/' (and 'b' on memory/bolt), V1 or "
                 "V2; the memory backend runs versioned with a delete-marked ghost key; every set is deleted again and the bucket "
-                "re-listed. fs backends: conflict-free sets only. distinct_nontrivial = distinct (backend, key set, prefix, delimiter). A rich set of names a directory walk may treat specially (segments beginning with a dot, a blank, a tilde; ending with a dot); every rich set runs on every backend also in the quick tier. On the real-directory fs backends every tenth set ends with uploads the file system refuses half way; on every backend ghost keys are stored and deleted before the listings. Half of the undelimited listings send an explicit empty delimiter= parameter.",
+                "re-listed. fs backends: conflict-free sets only. distinct_nontrivial = distinct (backend, key set, prefix, delimiter). A rich set of names a directory walk may treat specially (segments beginning with a dot, a blank, a tilde; ending with a dot); every rich set runs on every backend also in the quick tier. On the real-directory fs backends every tenth set ends with uploads the file system refuses half way; on every backend ghost keys are stored and deleted before the listings. Half of the undelimited listings send an explicit empty delimiter= parameter. On the fs backends every second key set tries uploads one and two levels below a stored object (refused; outside the model); every fs listing is also compared, contents and common prefixes in order, with fs_list of the extracted Model/FsList.v on the directory tree of the live keys. On the memory backend every third key set deletes two delete-marked ghost keys once more while versioning is suspended.",
         "explanation": "Theorems: Prefix.Match equals the declarative classification (string prefix, first delimiter after it) for "
                        "every key/prefix/delimiter in the property's domain, and the unpaginated listing is exactly filter+group of the "
                        "sorted live keys. Tie: ListObjects responses (keys in order, sizes, ETags, common prefixes) of the Go handlers "
@@ -109,7 +109,7 @@ PROPS = {
                 "full walks following the server's continuation (V1 NextMarker or last key, V2 continuation token) checked by the "
                 "walk oracle (page bound, strictly ascending, each common prefix once, concatenation = unpaginated, last page not "
                 "truncated, termination) and page-by-page against the model; single pages from arbitrary markers incl. start-after; "
-                "bolt/fs: fallback with WithUnimplementedPageError on/off. distinct_nontrivial = distinct walks. Key sets in which a key ends with the delimiter (next to keys below it) are walked too; keys beginning with the delimiter are the known finding D32. c04EncodedKeys: keys containing '+', '%41', '%2F', '%25' walked for every page size with and without encoding-type=url. c04SuspendedDeletes: keys hidden inside groups by deletes made while versioning is suspended.",
+                "bolt/fs: fallback with WithUnimplementedPageError on/off. distinct_nontrivial = distinct walks. Key sets in which a key ends with the delimiter (next to keys below it) are walked too; keys beginning with the delimiter are the known finding D32. c04EncodedKeys: keys containing '+', '%41', '%2F', '%25' walked for every page size with and without encoding-type=url. c04SuspendedDeletes: keys hidden inside groups by deletes made while versioning is suspended. Every third walk opens with its marker parameter present and empty (marker= / start-after= / continuation-token=).",
         "explanation": "Theorems about the paging loop of the model (bound, progress, completeness of the walk by induction on the sorted "
                        "key list). Tie: every page of every walk from the Go handlers vs the extracted model, plus a model-independent "
                        "walk oracle evaluated on the implementation's pages.",
@@ -124,7 +124,7 @@ PROPS = {
                 "upload-part with part numbers in {1..4, 7, 9999, 10000, 10001, 0, -1} incl. re-uploads and empty bodies, complete with "
                 "the full ascending list / a subset / a permutation / an unknown number / a wrong ETag / a duplicate / unquoted ETags / "
                 "an empty list, abort, get, list-parts, list-uploads over two keys with several simultaneous uploads; final probe "
-                "GET/HEAD of every key and listing of every pending upload. distinct_nontrivial = distinct successful completes. c06CompleteOverlap (every backend): the backend write of a complete is held open while an abort, a part upload or a second complete of the same upload arrives; both finish, exactly one of complete / abort takes effect. One in six part uploads of a history is a refused (re-)upload (digest of other bytes, more bytes than declared). c06EmptyUploadID: part upload, part listing, complete and abort with an empty uploadId are refused and leave the object of that key alone.",
+                "GET/HEAD of every key and listing of every pending upload. distinct_nontrivial = distinct successful completes. c06CompleteOverlap (every backend): the backend write of a complete is held open while an abort, a part upload or a second complete of the same upload arrives; both finish, exactly one of complete / abort takes effect. One in six part uploads of a history is a refused (re-)upload (digest of other bytes, more bytes than declared). c06EmptyUploadID: part upload, part listing, complete and abort with an empty uploadId are refused and leave the object of that key alone. Half of the histories run on keys with a '%' that is no escape and a blank (50%off, sales/growth 100%.csv, a%zz, p%/q%2).",
         "explanation": "Theorems over the uploader model: an accepted complete stores exactly the concatenation of the latest upload of "
                        "each listed part with the composite ETag and the initiation metadata and removes the upload; a rejected "
                        "complete and an abort leave object and pending upload state as required. Tie: every response (status, code, "
@@ -142,7 +142,7 @@ PROPS = {
                 "following NextPartNumberMarker and single pages from markers {0,1,2,4,13,14,41,42,10^6}; ListMultipartUploads walks "
                 "for every max-uploads 1..n+1 over six prefix/delimiter combinations following (NextKeyMarker, NextUploadIdMarker); "
                 "each walk is checked by a model-independent oracle (bound, every entry once, concatenation = unpaginated, each common "
-                "prefix once) and page by page against the model. distinct_nontrivial = distinct walks. A fixed history lists uploads whose groups are not neighbours in key order (/a/x, /b/x, a/y) unpaginated against the model. Every eighth history uses keys with white space at either end. Every second history ends by aborting what is left and listing the uploads of the bucket.",
+                "prefix once) and page by page against the model. distinct_nontrivial = distinct walks. A fixed history lists uploads whose groups are not neighbours in key order (/a/x, /b/x, a/y) unpaginated against the model. Every eighth history uses keys with white space at either end. Every second history ends by aborting what is left and listing the uploads of the bucket. A sixth of the part uploads spell the part number as a client may (010, 008, +3, 00013 decimal; 0x10, 0b11, 0o17, 1_0, 1e1, ' 5' name no part).",
         "explanation": "Theorems over the uploader model's listings (exactness w.r.t. the pending uploads / held parts, paging). Tie: "
                        "every page from the Go handlers vs the extracted model plus the walk oracle on the implementation's pages.",
         "assumptions": [],
@@ -177,7 +177,7 @@ PROPS = {
                 "bases (first / second base, configured with stray dots and a port); fall-backs (localhost, the base itself, a "
                 "multi-label prefix, an unrelated host); path-style with an extra leading and with a trailing slash. A recording "
                 "backend wrapper reports the bucket/key each handler addressed. distinct_nontrivial = distinct (variant, method, "
-                "sub-resource, bucket, key). Keys named like their bucket (bkt, bkt/k, bkt.s3.example.com/k) are in the pool. Twins for every order and combination of the two host options, host-bucket named explicitly off included. c16Concurrent: 16 x 1500 simultaneous host-style requests for 4 buckets to one server (bases, and plain host-bucket). Twins whose configured bases include <bucket>.<another base>.",
+                "sub-resource, bucket, key). Keys named like their bucket (bkt, bkt/k, bkt.s3.example.com/k) are in the pool. Twins for every order and combination of the two host options, host-bucket named explicitly off included. c16Concurrent: 16 x 1500 simultaneous host-style requests for 4 buckets to one server (bases, and plain host-bucket). Twins whose configured bases include <bucket>.<another base>. Four twins whose host-base option is given twice (the later list replaces the earlier; an empty list switches the bases off, alone and before host-bucket).",
         "explanation": "Theorems: the routed (bucket, object) of a host-style request equals that of the path-style request for every "
                        "bucket label, key path and base list; unmatched hosts fall back unchanged; extra slashes do not change the "
                        "address. Tie: recorded backend addresses of the Go handlers vs the extracted router; spec oracle: canonical "
@@ -194,7 +194,7 @@ PROPS = {
                 "resolves to), walks for max-keys 1..n+1 over four prefix/delimiter combinations following (NextKeyMarker, "
                 "NextVersionIdMarker) checked by a model-independent oracle (bound, every entry once, concatenation = unpaginated) and "
                 "page by page against the model, and single pages from marker pairs naming existing versions. distinct_nontrivial = "
-                "distinct walks. Every fifth history opens with deletes made while versioning is suspended over enabled-era versions; once versioning has ever been enabled every entry of the full listing is read back by the id it is listed with. Every fourth history has keys containing '+', a blank and '%20'.",
+                "distinct walks. Every fifth history opens with deletes made while versioning is suspended over enabled-era versions; once versioning has ever been enabled every entry of the full listing is read back by the id it is listed with. Every fourth history has keys containing '+', a blank and '%20'. The marker pairs naming existing versions are also sent under five prefix / delimiter combinations (the marker's key inside, outside or grouped by the prefix).",
         "explanation": "Theorems over the version-listing model (exactness w.r.t. the stored versions, one IsLatest per key = the "
                        "current version, paging). Tie: every page from the Go handlers vs the extracted model, version ids through "
                        "the bijection, plus the walk oracle on the implementation's pages.",
@@ -212,7 +212,7 @@ PROPS = {
                 "same digest x length matrix, bad part numbers and failing readers for upload-part; after each request a snapshot "
                 "(GET+HEAD of the previous object incl. metadata, GET of the absent key, bucket listing, ListParts of the pending "
                 "upload) is compared with the model, whose state is unchanged by a rejected request. distinct_nontrivial = distinct "
-                "(backend, integrity, target, digest kind, length delta / failure point). Uploads the backend itself refuses (a path segment longer than a file name on real directories) are rejected uploads too: listings with and without delimiter and the other object are compared before and after, and the refused key must afterwards read as NoSuchKey and delete quietly. Key-limit cases in multi-byte characters: 512 / 513 two-byte, 342 three-byte, 257 four-byte characters (the limit counts bytes). An aws-chunked part with the Content-MD5 of its payload (accepted), of its framed bytes and of other bytes (refused, the held part unchanged). Multipart initiates with metadata totalling limit-1 / limit / limit+1 / limit+100.",
+                "(backend, integrity, target, digest kind, length delta / failure point). Uploads the backend itself refuses (a path segment longer than a file name on real directories) are rejected uploads too: listings with and without delimiter and the other object are compared before and after, and the refused key must afterwards read as NoSuchKey and delete quietly. Key-limit cases in multi-byte characters: 512 / 513 two-byte, 342 three-byte, 257 four-byte characters (the limit counts bytes). An aws-chunked part with the Content-MD5 of its payload (accepted), of its framed bytes and of other bytes (refused, the held part unchanged). Multipart initiates with metadata totalling limit-1 / limit / limit+1 / limit+100. Bodies ending in LF / CRLF / CRLFCRLF with the declared length leaving exactly the line terminators out, with and without the digest of the bytes sent, plain and aws-chunked.",
         "explanation": "Theorems: the modelled upload path accepts iff the digest (when checked) matches the bytes received and the "
                        "declared length equals the body length; every rejection — for every reader failure point k — returns the state "
                        "unchanged. Tie: responses and before/after snapshots of the Go handlers on all six backends vs the extracted "
@@ -232,7 +232,7 @@ PROPS = {
                 "backends, every file on disk classified by bucket root) is compared with the snapshot before by the frame oracle: "
                 "only entries of the addressed (bucket, key) may change, a refused operation may change nothing, no file may appear "
                 "outside the addressed bucket's roots. Memory and bolt are additionally stepped against the model. "
-                "distinct_nontrivial = distinct (backend, bucket, key, status). Buckets bkc2 and bkc.x (names beginning with the name of bucket bkc) hold objects while the empty bucket bkc is created and deleted; the snapshot also records the common prefixes of a delimiter listing and, on real directories, the directories on disk; copies are also attempted from source buckets . .. buckets metadata _meta ./<bucket> spelling the path to a stored object (must be refused); every history ends with a force-delete (x-minio-force-delete) of a bucket that holds keys named like other buckets, under the frame oracle only. On memory and bolt the creation date is part of a bucket's list entry in the snapshot. The snapshot holds every pending multipart upload with its parts; uploads are started and their ids then used through another key of the bucket (refused, nothing changes). A third of the listings carry prefixes that spell paths to other buckets; everything listed must be a key written to the addressed bucket under that prefix.",
+                "distinct_nontrivial = distinct (backend, bucket, key, status). Buckets bkc2 and bkc.x (names beginning with the name of bucket bkc) hold objects while the empty bucket bkc is created and deleted; the snapshot also records the common prefixes of a delimiter listing and, on real directories, the directories on disk; copies are also attempted from source buckets . .. buckets metadata _meta ./<bucket> spelling the path to a stored object (must be refused); every history ends with a force-delete (x-minio-force-delete) of a bucket that holds keys named like other buckets, under the frame oracle only. On memory and bolt the creation date is part of a bucket's list entry in the snapshot. The snapshot holds every pending multipart upload with its parts; uploads are started and their ids then used through another key of the bucket (refused, nothing changes). A third of the listings carry prefixes that spell paths to other buckets; everything listed must be a key written to the addressed bucket under that prefix. Listing completeness: for prefixes cut from stored keys, and at the end of every history for the beginning of every held key with and without delimiter, every key held under the prefix is shown or lies under a shown common prefix; the key-value backends hold /lead next to lead.",
         "explanation": "Theorems: frame laws of the model (an operation addressed to (bucket, key) changes no other (bucket, key); keys "
                        "that differ as byte strings are different objects; an unknown bucket name is never served). Tie: model "
                        "comparison on the opaque-key backends; the model-free frame oracle (extracted from Coq) on the observations "
@@ -256,7 +256,7 @@ PROPS = {
                 "/ copy over existing, to a new key / multi-delete / create-bucket, a wrapping file system kills the request immediately "
                 "before each state-changing call and half way through each file write; the calls logged must equal the model's sequence "
                 "and a new backend on what is left must answer exactly as the Coq crash model predicts for that call index. "
-                "distinct_nontrivial = distinct (backend, history, restart) + distinct crash points. After every crash point the delimiter listing of the next process is compared with its plain listing: a common prefix without a key is a violation (known finding D34 where it is the directory of the killed upload). The crash points also carry the directory model's view (coq/Model/CrashDirs.v): the directory-changing calls logged must be the model's, and the common prefixes without a key that the next process lists must be the set the model predicts for that call index. After the crash points of create-bucket the bucket is (re)created, written, read, listed, emptied and deleted in the next process. Before each in-process restart an object with metadata values that are not valid UTF-8 is uploaded; HEAD before and after the restart must agree.",
+                "distinct_nontrivial = distinct (backend, history, restart) + distinct crash points. After every crash point the delimiter listing of the next process is compared with its plain listing: a common prefix without a key is a violation (known finding D34 where it is the directory of the killed upload). The crash points also carry the directory model's view (coq/Model/CrashDirs.v): the directory-changing calls logged must be the model's, and the common prefixes without a key that the next process lists must be the set the model predicts for that call index. After the crash points of create-bucket the bucket is (re)created, written, read, listed, emptied and deleted in the next process. Before each in-process restart an object with metadata values that are not valid UTF-8 is uploaded; HEAD before and after the restart must agree. c15BoltSnapshots: for put / overwrite (bodies below and above a bolt page) / copy / multipart complete / create-bucket on bolt, a copy of the database file taken at the instant the backend asks its time source for the time (what kill -9 leaves there) is opened by a new backend: it shows the state before or after the request, entire.",
         "explanation": "Theorems: every observable of the object API is a function of the persistent state alone (clean restart); for the fs "
                        "backends' call sequences: an uninterrupted PutObject is the abstract put, at EVERY crash point every other key answers "
                        "as before, DeleteObject is crash-atomic, every crash state of PutObject is one of a listed set, the invariant is kept "
@@ -278,7 +278,7 @@ PROPS = {
                 "metadata sets (none; Content-Type + x-amz-meta; Content-Type + Content-Encoding + Content-Disposition + a 900-byte "
                 "value), uploaded by PUT (with and without Content-MD5), browser-form POST, copy, and Backend.PutObject; each followed "
                 "by GET and HEAD over HTTP (and through the Backend API) and a listing of the key; later operations on other keys, "
-                "then the same reads again. distinct_nontrivial = distinct (backend, integrity, upload path, size, key). Copies are made inside the bucket and, every third one, from a second bucket that holds an object of the destination's name (which must stay what it is). On the key-value backends the twin-key groups include keys that differ by leading or doubled slashes (lead, /lead, //lead). Two keys carry white space at their ends (blank-padded; a tab and a trailing blank). heldRead: an object opened through Backend.GetObject is read after its key was overwritten; the bytes are those its size and hash describe. apiPutReusedBuffer: Go-API uploads from a buffer the caller refills afterwards.",
+                "then the same reads again. distinct_nontrivial = distinct (backend, integrity, upload path, size, key). Copies are made inside the bucket and, every third one, from a second bucket that holds an object of the destination's name (which must stay what it is). On the key-value backends the twin-key groups include keys that differ by leading or doubled slashes (lead, /lead, //lead). Two keys carry white space at their ends (blank-padded; a tab and a trailing blank). heldRead: an object opened through Backend.GetObject is read after its key was overwritten; the bytes are those its size and hash describe. apiPutReusedBuffer: Go-API uploads from a buffer the caller refills afterwards. On every second store the twin-key groups are written and read virtual-host style (host-bucket / host-bucket-base server on the same backend). recycledBucketPut: an upload whose body is held back while its empty bucket is deleted and created again; if acknowledged it is readable.",
         "explanation": "Theorems: read-your-writes with the exact body and the metadata sent (C01_roundtrip), HEAD/GET agreement, "
                        "stability under operations on other keys (frame), listing entry = current version. Tie: the responses of the Go "
                        "handlers and of the Go Backend API vs the extracted model, with length and MD5 recomputed by the checker.",
@@ -299,7 +299,7 @@ PROPS = {
                 "missing or duplicate parts; aws-chunked incl. truncated with hostile decoded lengths) x hostile headers (Range, "
                 "Content-MD5, X-Amz-Copy-Source, Content-Length, conditionals, force-delete, oversized metadata). Every request runs "
                 "under recover() and a 5 s deadline; every 25 requests a canary sequence on a fresh bucket and on the fuzzed bucket is "
-                "compared with the model. distinct_nontrivial = distinct (backend, config, status, code, method, header count). The corpus and the fuzz pool hold keys of 200-210 bytes in 2-, 3- and 4-byte characters (written, read, listed, deleted). The versioned store holds delete markers between live keys of a group, last in a group and as a group of their own; the corpus pages object listings over them (max-keys 1..6 x 11 prefix / delimiter / marker combinations). Signed, huge, non-hexadecimal and empty aws-chunked chunk-size fields, as an object and as a part. Completes naming every part number 0..6, 10000, 10001, alone and after a valid first entry.",
+                "compared with the model. distinct_nontrivial = distinct (backend, config, status, code, method, header count). The corpus and the fuzz pool hold keys of 200-210 bytes in 2-, 3- and 4-byte characters (written, read, listed, deleted). The versioned store holds delete markers between live keys of a group, last in a group and as a group of their own; the corpus pages object listings over them (max-keys 1..6 x 11 prefix / delimiter / marker combinations). Signed, huge, non-hexadecimal and empty aws-chunked chunk-size fields, as an object and as a part. Completes naming every part number 0..6, 10000, 10001, alone and after a valid first entry. A sixth configuration: a server with host-bucket bases addressed path-style; the canary on a fresh bucket carries a multipart upload from initiate to complete. On servers without a versioned backend the corpus sends versioning documents without a Status element.",
         "explanation": "Theorems: no reachable state makes a modelled handler panic (object API, range, uploader complete/list with any "
                        "part number or marker, version listing), an error leaves the state unchanged, and the status of an error equals "
                        "the table entry of its code. Tie: model-free response oracle (extracted from Coq) on every response of the Go "
@@ -323,7 +323,7 @@ PROPS = {
                 "order of its requests reproduces every observed response on the model; sequential probes between rounds; (c) 16 clients x "
                 "40 simultaneous versioned PUTs: ids pairwise distinct, each id serves exactly its upload; (d) the workload (reduced) in a "
                 "binary built with -race: a report with a conflicting access in /repo code is a violation. Watchdogs report hangs. "
-                "distinct_nontrivial = distinct (backend, versioned, round). c07CopyStorm (every backend, also under the race detector): 8 clients copy one object carrying an ACL, user metadata and a content type to keys of their own while others GET / HEAD it; the source must read exactly as uploaded throughout and every copy is the source without its ACL. c07AutoBucketFirstUse (memory, bolt, fs): with the auto-bucket option six first requests for a bucket are held until all have found it absent; every one is served. Rounds with a cross-key operation include two-key multi-object deletes; c07MultiDeleteStorm (8 clients multi-deleting keys of their own while others read and list, every backend, memory also versioned); c07MetaStorm (40 rounds x 4 simultaneous PUTs of one key with metadata headers of their own: known finding D35 when a header is lost). The copy storm also copies onto keys that other clients overwrite: every copy's answer carries the ETag of its (never written) source.",
+                "distinct_nontrivial = distinct (backend, versioned, round). c07CopyStorm (every backend, also under the race detector): 8 clients copy one object carrying an ACL, user metadata and a content type to keys of their own while others GET / HEAD it; the source must read exactly as uploaded throughout and every copy is the source without its ACL. c07AutoBucketFirstUse (memory, bolt, fs): with the auto-bucket option six first requests for a bucket are held until all have found it absent; every one is served. Rounds with a cross-key operation include two-key multi-object deletes; c07MultiDeleteStorm (8 clients multi-deleting keys of their own while others read and list, every backend, memory also versioned); c07MetaStorm (40 rounds x 4 simultaneous PUTs of one key with metadata headers of their own: known finding D35 when a header is lost). The copy storm also copies onto keys that other clients overwrite: every copy's answer carries the ETag of its (never written) source. c07RequestIDs: 16 clients x 2500 (mem) / 800 (bolt) simultaneous cheap requests, every response with a request id of its own. The harness ends the run after two HANG reports.",
         "explanation": "Theorems: for every number of clients, every program and EVERY schedule of the section model, the shared state and "
                        "each client's responses equal those of the sequential execution of the operations in Commit order, which respects "
                        "program order; Post delivers exactly what Commit captured (no torn reads). Tie: forced interleavings and "
